@@ -93,6 +93,9 @@ static struct {
   uint64_t change[16];
   int n_change, change_idx;
   uint64_t watch_hits;
+  uint64_t watch_hits_t[VS_MAX_THREADS];
+  int stalled_tid;  // thread held back by the stall strategy, -1 none
+  uint64_t stall_since;
   range_t watch[MAX_RANGES];
   int n_watch;
   range_t stacks[512];
@@ -185,6 +188,9 @@ static uint8_t* shadow;  // 1 byte per 8 bytes: 0 unallocated/redzone, 1 live, 2
 static size_t arena_high;  // high-water mark (for reset)
 #define HDR_MAGIC 0x5653484541504d47ull
 
+#define FAR_OFFSET 0x90000000ull
+static size_t far_used;
+static int shadow_freed_ok;
 static void arena_init(void) {
   arena = mmap(0, ARENA_SIZE, PROT_READ | PROT_WRITE, MAP_PRIVATE | MAP_ANONYMOUS | MAP_NORESERVE, -1, 0);
   shadow = mmap(0, ARENA_SIZE / 8, PROT_READ | PROT_WRITE, MAP_PRIVATE | MAP_ANONYMOUS | MAP_NORESERVE, -1, 0);
@@ -206,6 +212,13 @@ static void arena_reset(void) {
     madvise(arena, len, MADV_DONTNEED);
     madvise(shadow, (len / 8 + 4095) & ~4095ul, MADV_DONTNEED);
   }
+  if (far_used) {
+    size_t len = (far_used + 4095) & ~4095ul;
+    madvise(arena + FAR_OFFSET, len, MADV_DONTNEED);
+    madvise(shadow + (FAR_OFFSET >> 3), (len / 8 + 4095) & ~4095ul, MADV_DONTNEED);
+    far_used = 0;
+  }
+  shadow_freed_ok = 0;
   arena_used = 64;
   arena_high = 0;
 }
@@ -248,14 +261,38 @@ static size_t arena_block_size(void* p) {
 
 static inline int use_arena(void) { return vs.active && !vs.in_rt; }
 
+// a second bump region 0x90000000 bytes above the first: objects whose addresses differ by more than 2^31
+void* vs_alloc_far(size_t n) {
+  if (!arena) arena_init();
+  size_t start = (FAR_OFFSET + far_used + REDZONE + 15) & ~15ull;
+  size_t rn = (n + 7) & ~7ul;
+  if (rn == 0) rn = 8;
+  size_t end = (start + rn + REDZONE + 15) & ~15ull;
+  if (end > ARENA_SIZE) vs_inconclusive("far arena exhausted");
+  far_used = end - FAR_OFFSET;
+  uint64_t* hdr = (uint64_t*)(arena + start - 16);
+  hdr[0] = HDR_MAGIC;
+  hdr[1] = n;
+  bset_(shadow + (start >> 3), 1, rn >> 3);
+  return arena + start;
+}
+void vs_heap_allow_freed(int on) { shadow_freed_ok = on; }
+
 static void tso_drain_self(void);
 static void* real_sym(const char* name);
 static inline void sched_point(uintptr_t a, int size, int is_write);
 
+static int arena_perturb = -1;
+static inline void* perturbed(void* p, size_t n) {
+  // like MALLOC_PERTURB_: memory from malloc is not zero (the arena never reuses, so it would otherwise always be)
+  if (arena_perturb < 0) arena_perturb = getenv("VS_NO_PERTURB") ? 0 : 1;
+  if (arena_perturb && p) bset_(p, 0xA5, n);
+  return p;
+}
 void* malloc(size_t n) {
   if (!use_arena()) return __libc_malloc(n);
   tso_drain_self();
-  return arena_alloc(n, 16);
+  return perturbed(arena_alloc(n, 16), n);
 }
 void* calloc(size_t a, size_t b) {
   if (!use_arena()) return __libc_calloc(a, b);
@@ -290,7 +327,7 @@ void* realloc(void* p, size_t n) {
     return __libc_realloc(p, n);
   }
   size_t old = arena_block_size(p);
-  void* q = use_arena() ? arena_alloc(n, 16) : __libc_malloc(n);
+  void* q = use_arena() ? perturbed(arena_alloc(n, 16), n) : __libc_malloc(n);
   bcopy_(q, p, old < n ? old : n);
   free(p);
   return q;
@@ -298,7 +335,7 @@ void* realloc(void* p, size_t n) {
 void* memalign(size_t al, size_t n) {
   if (!use_arena()) return __libc_memalign(al, n);
   tso_drain_self();
-  return arena_alloc(n, al);
+  return perturbed(arena_alloc(n, al), n);
 }
 void* aligned_alloc(size_t al, size_t n) { return memalign(al, n); }
 int posix_memalign(void** out, size_t al, size_t n) {
@@ -322,6 +359,7 @@ static void vs_ctx_switch(void** save_sp, void* load_sp);
 static void finalize_result(int status) {
   vs_res->points = vs.points;
   if (vs.watch_hits) vs_label_add("watch_hits", vs.watch_hits);
+  for (int i = 0; i < VS_MAX_THREADS; i++) vs_res->watch_hits_t[i] = vs.watch_hits_t[i];
   uint64_t h = 1469598103934665603ull;
   for (uint32_t i = 0; i < vs_res->n_decisions; i++) {
     h = (h ^ vs_res->dec_point[i]) * 1099511628211ull;
@@ -420,11 +458,26 @@ static inline int is_stack_addr(uintptr_t a) {
     if (a >= vs.stacks[i].lo && a < vs.stacks[i].hi) return 1;
   return 0;
 }
+static void tso_capture_cur(void);
 void vs_register_stack(const void* lo, size_t len) {
   if (vs.n_stacks < 512) {
     vs.stacks[vs.n_stacks].lo = (uintptr_t)lo;
     vs.stacks[vs.n_stacks].hi = (uintptr_t)lo + len;
     vs.n_stacks++;
+  }
+  // stores made into the region before it was known to be a stack (the initial frame written by
+  // fiber_context_init) must not stay buffered: they would later be hidden / re-applied on top of the live stack
+  if (vs.active && vs.cfg.tso && vs.cur) {
+    tso_capture_cur();
+    vthread_t* t = vs.cur;
+    int k = 0;
+    for (int i = 0; i < t->sb_n; i++) {
+      uintptr_t a = t->sb[i].addr;
+      if (a >= (uintptr_t)lo && a < (uintptr_t)lo + len) continue;  // running thread: memory already shows the value -> committed
+      if (k != i) bcopy_(&t->sb[k], &t->sb[i], sizeof(sb_entry_t));
+      k++;
+    }
+    t->sb_n = k;
   }
 }
 
@@ -449,8 +502,10 @@ static inline void tso_capture(vthread_t* t) {
   int size = t->pend_size;
   t->pend_size = 0;
   void* p = (void*)t->pend_addr;
+  if (is_stack_addr(t->pend_addr)) return;
   if (bcmp_(p, t->pend_old, size)) sb_push(t, t->pend_addr, size, p, t->pend_old);
 }
+static void tso_capture_cur(void) { tso_capture(vs.cur); }
 
 static void tso_drain_self(void) {
   if (!vs.cfg.tso || !vs.active) return;
@@ -570,6 +625,13 @@ static vthread_t* pick_highest(void) {
   }
   return best;
 }
+static void release_stall(void) {
+  if (vs.stalled_tid >= 0) {
+    vs.th[vs.stalled_tid].state = 1;
+    vs.stalled_tid = -1;
+    vs_label_add("stall_released", 1);
+  }
+}
 static vthread_t* pick_random_other(void) {
   int n = 0;
   vthread_t* c[VS_MAX_THREADS];
@@ -642,10 +704,14 @@ static void budget_check(void) {
   }
 }
 
+static inline void stall_check(void) {
+  if (vs.stalled_tid >= 0 && (vs.points - vs.stall_since > vs.cfg.stall_len || vs.fair)) release_stall();
+}
 // the running thread cannot usefully continue (spin / idle poll): let others run
 static void forced_yield(void) {
   if (!vs.active) return;
   budget_check();
+  stall_check();
   vs.confirm_active = 0;
   vthread_t* nt = 0;
   if (vs.cfg.tso) {
@@ -673,6 +739,7 @@ static void forced_yield(void) {
 
 static void slow_path(void) {
   budget_check();
+  stall_check();
   if (vs.confirm_active) {
     if (vs.G == vs.confirm_G) {
       vs.next_event = vs.points + 64;
@@ -740,8 +807,26 @@ static void slow_path(void) {
   }
 }
 
+static int runnable_count(void);
 static inline void watch_hit(void) {
   vs.watch_hits++;
+  vthread_t* t = vs.cur;
+  vs.watch_hits_t[t->id]++;
+  // stall strategy: hold ONE thread at one of ITS OWN accesses to the watched object while all the others run on
+  if (vs.cfg.stall_thread == t->id + 1 && vs.stalled_tid < 0 && !vs.fair && vs.watch_hits_t[t->id] == vs.cfg.stall_at && runnable_count() > 1) {
+    vs.stalled_tid = t->id;
+    vs.stall_since = vs.points;
+    t->state = 4;  // stalled
+    vs_label_add("stalled", 1);
+    vthread_t* nt = pick_random_other();
+    if (nt && nt != t) {
+      vs_res->involuntary++;
+      switch_to(nt);
+    } else {
+      release_stall();
+    }
+    return;
+  }
   if (vs.cfg.targeted && !vs.fair && vs.cfg.strategy == VS_STRAT_PCT && vs.change_idx < vs.n_change &&
       vs.watch_hits >= vs.change[vs.change_idx]) {
     vs.cur->prio = vs.cfg.pct_depth - vs.change_idx;
@@ -759,7 +844,7 @@ static inline void shadow_check(uintptr_t a, int size, int is_write) {
     size_t off = a - (uintptr_t)arena;
     uint8_t s = shadow[off >> 3];
     uint8_t s2 = shadow[(off + size - 1) >> 3];
-    if (s != 1 || s2 != 1) {
+    if ((s != 1 || s2 != 1) && !(shadow_freed_ok && (s == 2 || s == 1) && (s2 == 2 || s2 == 1))) {
       vs.in_rt++;
       vs_violation(s == 2 || s2 == 2 ? "use_after_reclaim" : "heap_out_of_bounds", "%s of %d bytes at %p (arena+%zu) by vthread %d at point %llu, pc %p",
                    is_write ? "write" : "read", size, (void*)a, off, vs.cur->id, (unsigned long long)vs.points, vs.last_pc);
@@ -819,6 +904,10 @@ static void thread_finish(void) {
       if (tid >= 0 && tid < vs.nth && vs.th[tid].state == 1) nt = &vs.th[tid];
     }
     if (!nt) nt = (vs.cfg.strategy == VS_STRAT_PCT && !vs.fair) ? pick_highest() : pick_next_rr();
+    if (!nt && vs.stalled_tid >= 0) {
+      release_stall();
+      nt = pick_next_rr();
+    }
     if (!nt) {
       vs.in_rt++;
       vs_violation("engine_deadlock", "all virtual threads finished or blocked");
@@ -895,6 +984,10 @@ void vs_thread_join(int tid) {
       if (r >= 0 && r < vs.nth && vs.th[r].state == 1) nt = &vs.th[r];
     }
     if (!nt) nt = (vs.cfg.strategy == VS_STRAT_PCT && !vs.fair) ? pick_highest() : pick_next_rr();
+    if (!nt && vs.stalled_tid >= 0) {
+      release_stall();
+      nt = pick_next_rr();
+    }
     if (!nt) {
       vs.in_rt++;
       vs_violation("engine_deadlock", "join with nothing runnable");
@@ -946,6 +1039,9 @@ int vs_run_inproc(const vs_config_t* cfg, vs_main_fn fn, void* arg) {
   vs.low_prio = 0;
   vs.n_change = vs.change_idx = 0;
   vs.watch_hits = 0;
+  bset_(vs.watch_hits_t, 0, sizeof vs.watch_hits_t);
+  vs.stalled_tid = -1;
+  if (!vs.cfg.stall_len) vs.cfg.stall_len = 20000;
   vs.n_watch = 0;
   vs.n_stacks = 0;
   vs.replay_idx = 0;
